@@ -185,8 +185,10 @@ func (l *List) M__bool__() (Object, error) {
 	return NewBool(len(l.Items) > 0), nil
 }
 
+// The iterator walks the list itself, not a snapshot of it: items
+// appended, removed or replaced during the iteration are seen
 func (l *List) M__iter__() (Object, error) {
-	return NewIterator(Tuple(l.Items)), nil
+	return NewIterator(l), nil
 }
 
 func (l *List) M__getitem__(key Object) (Object, error) {
